@@ -19,6 +19,7 @@ def RefHyp (f : Nat) (rec : Runner P V) (ev : Env V → Graph P V → List V →
   ∀ (g' : Graph P V) (args : List (Bool × V)) (E' : List (Frame V)) (σ' : Env V),
     wfG f g' = true →
     (∀ n, n ∈ g'.allDefs → getInput E' n = none ∧ look σ' n = none) →
+    headOK E' →
     (∀ n, n ∉ g'.defs → Needed g' g'.ops n → getInput E' n = look σ' n) →
     rec g' args E' = ev σ' g' (args.map (·.2))
 
@@ -69,6 +70,15 @@ theorem collect_nil_eq_lookups (views : Env V) (st : St V) : ∀ (ins : List Nat
   | n :: ns, pos => by
     simp only [collect, lookups, look]
     rw [collect_nil_eq_lookups views st ns (pos + 1)]
+
+theorem mem_of_look : ∀ (σ : Env V) (n : Nat) (v : V), look σ n = some v → (n, v) ∈ σ
+  | [], _, _, h => by simp [look] at h
+  | (m, w) :: rest, n, v, h => by
+    by_cases hm : m = n
+    · simp only [look_cons, hm, if_true] at h
+      simp [hm, Option.some.inj h]
+    · simp only [look_cons, hm, if_false] at h
+      exact List.mem_cons_of_mem _ (mem_of_look rest n v h)
 
 theorem mem_capNamesOps : ∀ (ops : List (Op P V)) (op : Op P V) (n : Nat), op ∈ ops →
     n ∈ op.capNames → n ∈ capNamesOps ops
@@ -159,9 +169,9 @@ theorem extract_facts (g : Graph P V) (op : Op P V) (st : St V)
       rw [this] at h4; exact absurd h4 (by simp)
 
 /-- The environment handed to a subgraph agrees with the naive environment of the operator. -/
-theorem child_hyps (g : Graph P V) (views : Env V) (E : List (Frame V)) (σp : Env V)
-    (ctx : Ctx g views E σp) (op : Op P V) (hop : op ∈ g.ops) (rest : List (Op P V))
-    (st : St V) (b : Env V) (inv : Inv g views E σp (op :: rest) st b)
+theorem child_hyps (g : Graph P V) (views : Env V) (σp : Env V)
+    (ctx : Ctx g views σp) (op : Op P V) (hop : op ∈ g.ops) (rest : List (Op P V))
+    (st : St V) (b : Env V) (inv : Inv g views σp (op :: rest) st b)
     (hnr : ∀ n, n ∈ op.capNames → g.caps.contains n = false)
     (sub : Graph P V) (hcap : ∀ n, n ∈ sub.capNames → n ∈ op.capNames)
     (hall : ∀ n, n ∈ sub.allDefs → n ∈ op.allDefs)
@@ -171,24 +181,50 @@ theorem child_hyps (g : Graph P V) (views : Env V) (E : List (Frame V)) (σp : E
     let E' : List (Frame V) := { locals := g.defs, caps := g.caps, views := views,
                                  tempRef := ex.1.temp, byVal := ex.2 } :: ex.1.env
     (∀ n, n ∈ sub.allDefs → getInput E' n = none ∧ look (b ++ σp) n = none) ∧
+    headOK E' ∧
     (∀ n, n ∉ sub.defs → Needed sub sub.ops n → getInput E' n = look (b ++ σp) n) := by
   intro ex E'
   obtain ⟨_, henv, _, _⟩ := extract_facts g op st hnr
-  have houter : ∀ n, n ∉ g.defs → getInput E' n = getInput E n := by
+  have houter : ∀ n, n ∉ g.defs → getInput E' n = getInput st.env n := by
     intro n hn
     show getInput (_ :: ex.1.env) n = _
-    rw [getInput_frame_outer g views _ _ _ n hn, henv, inv.env]
-  constructor
+    rw [getInput_frame_outer g views _ _ _ n hn, henv]
+  refine ⟨?_, ?_, ?_⟩
   · intro n hn
     have hng : n ∉ g.defs := disjointB_spec _ _ hdisj n hn
     have hga : n ∈ g.allDefs := allDefs_of_op g op hop n (hall n hn)
-    refine ⟨by rw [houter n hng]; exact ctx.shadowE n hga, ?_⟩
+    refine ⟨by rw [houter n hng]; exact inv.shadowE n hga, ?_⟩
     have hb : look b n = none := by
       cases hl : look b n with
       | none => rfl
       | some v => exact absurd (inv.bkeys n (by simp [hl])) hng
     rw [look_append_right b σp n hb]
     exact ctx.shadowσ n hga
+  · -- by-value captures were all taken out of `temp_values`: local nodes, no longer by reference
+    show ∀ n, look ex.2 n ≠ none → g.defs.contains n = true ∧ look ex.1.temp n = none
+    intro n hn
+    cases hl : look ex.2 n with
+    | none => exact absurd hl hn
+    | some v =>
+      have hmem : (n, v) ∈ ex.2 := mem_of_look _ _ _ hl
+      obtain ⟨hds, hni, _⟩ := extractByVal_keys g.caps op.directInputs (deps g op) st (n, v) hmem
+      have hgc : g.caps.contains n = false := by
+        have hni' : n ∉ op.directInputs := by simpa using hni
+        unfold deps at hds
+        rcases List.mem_append.mp hds with h | h
+        · exact absurd h hni'
+        · exact hnr n (List.mem_filter.mp h).1
+      cases ht : look st.temp n with
+      | none =>
+        have := extractByVal_not_key g.caps op.directInputs (deps g op) st n ht hgc
+        rw [hl] at this; exact absurd this (by simp)
+      | some w =>
+        rcases extractByVal_visible g.caps op.directInputs (deps g op) st n w ht hgc with
+          ⟨_, h2⟩ | ⟨h1, _⟩
+        · rw [hl] at h2; exact absurd h2 (by simp)
+        · refine ⟨?_, h1⟩
+          have := valueDefs_sub_defs g n (inv.keys n (by simp [ht]))
+          simpa using this
   · intro n hnd hneed
     have hcn : n ∈ op.capNames := hcap n (needed_free_in_capNames sub hout n hnd hneed)
     have hag := inv.agree n (needed_head g op rest n (Or.inr hcn))
@@ -197,8 +233,7 @@ theorem child_hyps (g : Graph P V) (views : Env V) (E : List (Frame V)) (σp : E
     by_cases hg : n ∈ g.defs
     · show getInput (_ :: ex.1.env) n = _
       rw [child_sees_parent_locals g views st op.directInputs (deps g op) n hg]
-      have hE : getInput st.env n = none := by
-        rw [inv.env]; exact ctx.shadowE n (defs_sub_allDefs g n hg)
+      have hE : getInput st.env n = none := inv.shadowE n (defs_sub_allDefs g n hg)
       cases hv : look views n with
       | some v =>
         have := inv.disj n (by simp [hv])
@@ -221,6 +256,6 @@ theorem child_hyps (g : Graph P V) (views : Env V) (E : List (Frame V)) (σp : E
         cases hl : look st.temp n with
         | none => rfl
         | some v => exact absurd (valueDefs_sub_defs g n (inv.keys n (by simp [hl]))) hg
-      simp [hv, ht, inv.env]
+      simp [hv, ht]
 
 end RtenVerif.ControlFlow
